@@ -406,6 +406,8 @@ type recSummary struct {
 	ByMode   map[string]int `json:"byMode"`
 	Samples  []any          `json:"samples"`
 	Notes    []string       `json:"notes,omitempty"`
+	// HangsRerun: runs in which a call did not return under load and which were repeated alone (only the repetition is judged)
+	HangsRerun int `json:"hangsRerun,omitempty"`
 }
 
 func pick[T any](r *rand.Rand, xs []T) T { return xs[r.Intn(len(xs))] }
@@ -606,6 +608,7 @@ func cmdRecReader(args []string) int {
 	distinct := map[string]bool{}
 	var wg sync.WaitGroup
 	sem := make(chan struct{}, *par)
+	var retry []func() []tr.Ev
 	var gens []func() (caseT, bool)
 	switch *mode {
 	case "c09x", "c02x", "c11x", "c02p":
@@ -637,6 +640,14 @@ func cmdRecReader(args []string) int {
 			}
 			run := c.run
 			evs := execReaderRun(run, c.stream, c.expected, c.inject)
+			if hasHang(evs) {
+				// a call that did not return while many runs were in flight may be an artefact of the load: the run is
+				// repeated alone, with a longer bound, after all the others; only that verdict counts
+				mu.Lock()
+				retry = append(retry, func() []tr.Ev { return execReaderRun(run, c.stream, c.expected, c.inject) })
+				mu.Unlock()
+				return
+			}
 			w.EmitAll(evs)
 			mu.Lock()
 			s.Runs++
@@ -653,6 +664,7 @@ func cmdRecReader(args []string) int {
 		}(k)
 	}
 	wg.Wait()
+	rerunAlone(retry, w, &s)
 	w.Close()
 	s.Distinct = len(distinct)
 	sort.Slice(s.Samples, func(i, j int) bool { return s.Samples[i].(*readerRun).Run < s.Samples[j].(*readerRun).Run })
